@@ -18,7 +18,7 @@ IPV4 = ["127.0.0.1", "1.2.3.4", "255.255.255.255", "0.0.0.0"]
 IPV6 = ["::1", "::", "2001:db8::1", "2001:DB8:0:0:0:0:0:1", "1:2:3:4:5:6:7:8", "::ffff:1.2.3.4", "fe80::1%eth0", "fe80::1%25eth0",
         "1::", "fe80::1%é", "::1%тест", "0:0:0:0:0:0:0:0", "1:0:0:2:0:0:0:3", "::1:2:3:4:5:6:7", "1:2:3:4:5:6:7::", "2001:db8::", "0:0:1::", "::0:0:1",
         "fe80::1%", "1:2:3:4:5:6:1.2.3.4", "v1.a", "vF.x:y", "1:2", ":::", "1:::2", "12345::", "g::1", "::1%z%y", "::1.2.3", "1:2:3:4:5:6:7:8:9"]
-IDN = ["ü.com", "例え.jp", "bücher.example", "A_B.ü.com", "ß.de", "İ.com", "a／b", "ｅxample.com", "xn--a.é", "a­b.é", "é" * 64 + ".com", "１.2.3.4", "٣",
+IDN = ["ex［ample.com", "a］b.é", "ü.com", "例え.jp", "bücher.example", "A_B.ü.com", "ß.de", "İ.com", "a／b", "ｅxample.com", "xn--a.é", "a­b.é", "é" * 64 + ".com", "１.2.3.4", "٣",
        "user＠example.com", "a：b.com", "a﹕80", "a﹫b", "x℀y.com", "a＃b", "a？b", "good.com＠evil.org",
        # an IDN whose LAST label is ASCII and ends in a digit (looks like the tail of an IPv4 address to a careless test)
        "bücher.h1", "ü.com2", "例え.x9", "xn--bcher-kva.h1", "é.1a2", "i❤.ws", "☃.net", "my_svc.bücher.de", "xn--i-7iq.ws"]
